@@ -45,6 +45,10 @@ theorem prealloc_limit_is_1024 : Facts.C21.preallocateLimit = 1024 := by decide
 /-- The translator understood every generated constructor, and encode/decode bodies agree. -/
 theorem all_constructors_translated : Facts.C21.untranslated = 0 := by decide
 
+/-- Every generic (`!X`, Go `bin.Object`) field is nil-checked before Encode/Decode dereference
+it (a `nil` there was a panic, not an error). -/
+theorem generic_fields_nil_checked : Facts.C21.genericUnchecked = 0 := by decide
+
 /-- No generated type uses the generator's (defective) double-vector loop. -/
 theorem no_double_vectors : Facts.C21.doubleVectors = 0 := by decide
 
